@@ -35,6 +35,8 @@ PROGRAMS = {
     'swallow_once': "try:\n    while spin():\n        pass\nexcept BaseException:\n    pass\nz = 1\n",
     # closes the captured stream and then hangs
     'close_then_spin': "import sys\nprint('x')\nsys.stdout.close()\nwhile spin():\n    pass\n",
+    # fails with an exception whose text never finishes computing (student code runs inside pedal's reporting)
+    'slow_str': "class Stuck(Exception):\n    def __str__(self):\n        while spin():\n            pass\n        return 'stuck'\nprint('going')\nraise Stuck()\n",
     # ends with its own exception at the last moment
     'slow_error': "a = 1\nprint('hello')\nb = a / 0\n",
 }
@@ -146,7 +148,7 @@ def make_body(programs, k_join, filtered, entry='run'):
         for l in S.log:
             if l[0] == 'finished':
                 who_last = l[1]
-        sig_base = {'program_kind': 'terminating' if pname.startswith('slow') else ('blocking' if pname == 'block' else 'looping')}
+        sig_base = {'program_kind': 'stuck in its exception text' if pname == 'slow_str' else 'terminating' if pname.startswith('slow') else ('blocking' if pname == 'block' else 'looping')}
         canon = repr((pname, first, second, final, leaked, repr(err)[:60], repr(err2)[:60]))
         ctx.observe(canon)
         after_timer_steps = any(l[0] in ('deliver', 'blocks forever', 'drain horizon reached') for l in S.log)
